@@ -1,8 +1,142 @@
 import SdcModel.XmlBinding
+import SdcModel.Proofs.XmlBindingCls
+import SdcModel.Generated.Schema
 /-!
-# C05 — data types round-trip losslessly through XML  (theorems are added stage by stage)
+# C05 — BICEPS / WS-* data types round-trip losslessly through XML
+Property theorems only. Model: `SdcModel/XmlBinding.lean` (one `write` / `read` per descriptor kind of
+`xml_structure.py`, classes = ordered member lists of the generated table `Generated/Schema.lean`, regenerated from the
+running code on every run). The scalar converters are abstract (`Codec`); their round trip is a hypothesis carried by
+`WT` (`Codec.RT`, proved for the real converters in C18). Everything is proved for *every* schema table; the generated
+table enters through the decidable side condition `okCls` (member names pairwise distinct, `xsi:type` / whole-node
+members absent), which the kernel evaluates for all classes.
 -/
 namespace Sdc.C05
 open Sdc.XmlBinding
+
+/-- per kind: reading what a member wrote into an element that had nothing of this member yet gives the value back.
+    All eight descriptor kinds (attr, attrList, text, textList, subTextList, sub, subList, raw), nested instances
+    through arbitrary call-backs that round-trip (`RTobj`). -/
+theorem read_write_kind (C : Codec) (S : Schema) (wr : Wr) (rd : Rd) (P : Nat → List Val → Prop)
+    (hP : ∀ c fs, P c fs → RTobj wr rd c fs) (k : Kind) (v : Val) (x : Xml) (hc : Clean k.fp x)
+    (hwt : WTk C S P k v) : ∃ x', writeKind C S wr k v x = some x' ∧ readKind C S rd k x' = some v :=
+  Sdc.XmlBinding.read_write_kind C S wr rd P hP k v x hc hwt
+
+/-- frame: a member writes only inside its own footprint (its attribute / its child elements / the text) and never
+    changes the tag — members with distinct XML names do not interfere -/
+theorem write_frame (C : Codec) (S : Schema) (wr : Wr) (hwr : ∀ c fs x x', wr c fs x = some x' → x'.tag = x.tag)
+    (k : Kind) (v : Val) (x x' : Xml) (h : writeKind C S wr k v x = some x') :
+    x'.tag = x.tag ∧ ∀ fp : Fp, fp.indep k.fp = true → Agree fp x x' :=
+  writeKind_frame C S wr hwr k v x x' h
+
+/-- a member reads only its own footprint -/
+theorem read_local (C : Codec) (S : Schema) (rd : Rd) (k : Kind) (x y : Xml) (h : Agree k.fp x y) :
+    readKind C S rd k x = readKind C S rd k y :=
+  readKind_agree C S rd k x y h
+
+/-- **class-level round trip** (`from_node(as_etree_node(v)) == v`): for every table, every class `c` with `okCls`,
+    every well-typed instance of any nesting depth `< fuel` (nested classes must satisfy `okCls` too — part of `WT`),
+    any tag: writing succeeds and reading the result gives exactly the instance -/
+theorem roundtrip (C : Codec) (S : Schema) (fuel c : Nat) (fs : List Val) (tag : Nat) (h : WT C S fuel c fs) :
+    ∃ x, writeCls C S fuel c fs tag = some x ∧ x.tag = tag ∧ readCls C S fuel c x = some (.obj c fs) := by
+  obtain ⟨x, hw, ht, _, hr⟩ := cls_roundtrip C S fuel c fs h tag
+  exact ⟨x, hw, ht, by simpa [withXsi] using hr none⟩
+
+/-- writing the value that was read gives the same XML again (`as_etree_node(from_node(x)) == x` for `x` written by
+    the library) -/
+theorem rewrite_same (C : Codec) (S : Schema) (fuel c : Nat) (fs : List Val) (tag : Nat) (h : WT C S fuel c fs)
+    (x : Xml) (hw : writeCls C S fuel c fs tag = some x) :
+    ∃ c' fs', readCls C S fuel c x = some (.obj c' fs') ∧ writeCls C S fuel c' fs' tag = some x := by
+  obtain ⟨x', hw', _, hr⟩ := roundtrip C S fuel c fs tag h
+  have : x' = x := Option.some.inj (hw'.symm.trans hw)
+  subst this
+  exact ⟨c, fs, hr, hw⟩
+
+/-- the round trip also holds below an `xsi:type` attribute (substituted nested instances) -/
+theorem roundtrip_with_xsi_type (C : Codec) (S : Schema) (fuel c : Nat) (fs : List Val) (tag : Nat)
+    (h : WT C S fuel c fs) (q : String) :
+    ∃ x, writeCls C S fuel c fs tag = some x ∧ readCls C S fuel c (withXsi (some q) x) = some (.obj c fs) := by
+  obtain ⟨x, hw, _, _, hr⟩ := cls_roundtrip C S fuel c fs h tag
+  exact ⟨x, hw, hr (some q)⟩
+
+/-- **absent optional parts**: a member whose attribute / child element is not in the XML reads as exactly its declared
+    absent value: `None` (the implied value is applied by `__get__`), the empty list, or the class default -/
+theorem absent_defaults (C : Codec) (S : Schema) (rd : Rd) (k : Kind) (x : Xml)
+    (hfp : (∃ n, k.fp = .attr n) ∨ ∃ n, k.fp = .child n) (hc : Clean k.fp x) :
+    readKind C S rd k x = some k.absentVal :=
+  read_absent C S rd k x hfp hc
+
+/-- … in particular for a whole element without attributes and children -/
+theorem empty_element_defaults (C : Codec) (S : Schema) (rd : Rd) (k : Kind) (tag : Nat)
+    (hfp : (∃ n, k.fp = .attr n) ∨ ∃ n, k.fp = .child n) :
+    readKind C S rd k (Xml.empty tag) = some k.absentVal :=
+  read_absent C S rd k _ hfp (clean_empty _ (by rcases hfp with ⟨n, h⟩ | ⟨n, h⟩ <;> simp [h]) tag)
+
+/-! ### the generated table -/
+
+/-- every class of the generated table satisfies the side condition, except the three wrapper classes of
+    `msg_types` whose `container` member is the node itself (`ContainerProperty(None, …)`: its footprint is the whole
+    element). Evaluated by the kernel over the complete table. -/
+theorem generated_classes_ok :
+    (Generated.Schema.classes.filter (fun e => !e.ok)).map (·.name) =
+      ["msg_types.Channel", "msg_types.Mds", "msg_types.Vmd"] := by decide +kernel
+
+/-- the statement at full strength: every class of the table, every value. Not claimed: the three classes above are
+    outside `okCls`, values outside `WT` (a converter that does not round-trip, `None` in a mandatory member, an
+    `xsi:type` that does not resolve to the value's class) are excluded, XSD validity is not modelled. -/
+def C05_full : Prop :=
+  ∀ (C : Codec) (fuel c : Nat) (fs : List Val) (tag : Nat), c < Generated.Schema.classes.length →
+    ∃ x, writeCls C Generated.Schema.schema fuel c fs tag = some x ∧
+      readCls C Generated.Schema.schema fuel c x = some (.obj c fs)
+
+/-- the part that is proved: the generated table, well-typed values -/
+theorem generated_roundtrip_partial (C : Codec) (fuel c : Nat) (fs : List Val) (tag : Nat)
+    (h : WT C Generated.Schema.schema fuel c fs) :
+    ∃ x, writeCls C Generated.Schema.schema fuel c fs tag = some x ∧
+      readCls C Generated.Schema.schema fuel c x = some (.obj c fs) := by
+  obtain ⟨x, hw, _, hr⟩ := roundtrip C Generated.Schema.schema fuel c fs tag h
+  exact ⟨x, hw, hr⟩
+
+/-! ### non-vacuity: a concrete codec, a two-class schema, a well-typed nested value -/
+
+/-- identity codec on non-empty tokens without blanks (what `StringConverter` does on such values) -/
+def exC : Codec where
+  toXml := fun _ s => some s
+  toPy := fun _ l => some l
+  join := fun ls => " ".intercalate ls
+  split := fun s => if s = "" then [] else [s]
+  now := "0"
+
+/-- class 0: one attribute (name 1), one text child (name 2); class 1: attribute 1, nested member (child 3, class 0),
+    list member (child 4, class 0) -/
+def exS : Schema :=
+  ⟨[⟨"Inner", false, none, [⟨"A", .attr 1 "String" true false⟩, ⟨"T", .text (some 2) "String" true false .plain none⟩]⟩,
+    ⟨"Outer", false, none, [⟨"A", .attr 1 "String" true false⟩, ⟨"One", .sub (some 3) 0 true false false 0 none⟩,
+      ⟨"Many", .subList 4 0 false 0⟩]⟩], []⟩
+
+def exV : List Val :=
+  [.atom "a", .obj 0 [.none, .atom "t"], .list [.obj 0 [.atom "b", .none], .obj 0 [.none, .none]]]
+
+example : exS.okCls 0 = true ∧ exS.okCls 1 = true := by decide
+
+example : WT exC exS 2 1 exV := by
+  have rt : ∀ s, exC.RT "String" s := fun s => ⟨s, rfl, rfl⟩
+  have nest : WTnested exS false 0 0 0 := ⟨none, by decide, rfl⟩
+  have inner : ∀ a t, (a = Val.none ∨ ∃ s, a = .atom s) → (t = Val.none ∨ ∃ s, t = .atom s) → WT exC exS 1 0 [a, t] := by
+    intro a t ha ht
+    refine ⟨by decide, ?_, ?_, trivial⟩
+    · refine ⟨by simp, ?_⟩
+      rcases ha with rfl | ⟨s, rfl⟩
+      · exact Or.inl ⟨rfl, rfl, rfl⟩
+      · exact Or.inr ⟨s, rfl, rt s⟩
+    · rcases ht with rfl | ⟨s, rfl⟩
+      · exact Or.inl ⟨rfl, rfl, rfl, by simp⟩
+      · exact Or.inr ⟨s, s, rfl, rfl, rfl, by simp⟩
+  refine ⟨by decide, ⟨by simp, Or.inr ⟨"a", rfl, rt _⟩⟩, ⟨rfl, Or.inr (Or.inr ⟨0, _, rfl, by simp [Val.isEmptyObj], ?_, nest⟩)⟩, ?_, trivial⟩
+  · exact inner _ _ (Or.inl rfl) (Or.inr ⟨_, rfl⟩)
+  · refine ⟨_, rfl, fun w hw => ?_⟩
+    simp only [List.mem_cons, List.not_mem_nil, or_false] at hw
+    rcases hw with rfl | rfl
+    · exact ⟨0, _, rfl, inner _ _ (Or.inr ⟨_, rfl⟩) (Or.inl rfl), nest⟩
+    · exact ⟨0, _, rfl, inner _ _ (Or.inl rfl) (Or.inl rfl), nest⟩
 
 end Sdc.C05
